@@ -2,5 +2,6 @@ SPECIFICATION Spec
 CONSTANT Depth = 4
 CONSTANT DcShift = "4294966294"
 CONSTANT Hook = FALSE
+CONSTANT Side = "client"
 INVARIANT Emit
 CHECK_DEADLOCK FALSE
